@@ -305,7 +305,9 @@ impl Exec for XGrantExec {
             let _ = std::fs::remove_file(&path);
             let total = pages * 4096;
             let fill: Vec<u8> = (0..total).map(|i| ((i * 7 + i / 4096) % 251 + 1) as u8).collect();
-            f.write_all_at(&fill, 0).expect("harness: fill");
+            // the backing file stands for guest RAM (file offset = guest address): the pattern is laid around the region,
+            // wherever in the address space it is (a sparse file: a base of 4 GiB costs nothing)
+            f.write_all_at(&fill, base.saturating_sub(8192)).expect("harness: fill");
             let f = std::sync::Arc::new(f);
             let flags = match kind.as_str() {
                 "ondemand" => (MmapXenFlags::GRANT | MmapXenFlags::NO_ADVANCE_MAP).bits(),
